@@ -206,6 +206,7 @@ def run_case(case) -> Dict[str, Any]:
     stream = b"".join(mk(k, tc, i) for i, k in enumerate(case["kinds"]))
     close = tuple(case["close"]) if case.get("close") else None
     sp = clx.ScriptedPeer(timecode=tc)
+    sp.net.cli_clock.step = case.get("clock_step", 0.0)
     c = sp.client
     probs: List[Dict[str, Any]] = []
     outcomes: List[Tuple] = []
@@ -302,6 +303,10 @@ def cases(tier: str) -> List[Dict[str, Any]]:
                     out.append(dict(tc=tc, kinds=list(seq), timeout=to, ack=ack, sync=sync))
                 if n <= 2:
                     out.append(dict(tc=tc, kinds=list(seq), timeout=0.1, ack=False, sync=True, init="all"))
+                if n >= 2 and not tc:
+                    # every clock reading costs 60 ms: a 100 ms budget is spent while frames are being skipped
+                    out.append(dict(tc=tc, kinds=list(seq), timeout=0.1, ack=False, sync=False, clock_step=0.06))
+                    out.append(dict(tc=tc, kinds=list(seq), timeout=1e-6, ack=True, sync=False, clock_step=0.001))
     # one subscription change between any two reads
     for n in range(1, 3 if tier == "quick" else 4):
         for seq in itertools.product(KINDS, repeat=n):
